@@ -166,7 +166,11 @@ func VH_C16_copy_list_member() {
 	}
 	elem := l.Struct(1)
 	vRegion("member_of_subword_list", w < 8)
-	_, sb := vNewMsg()
+	sb := sa
+	sameMsg := vConc(int(vNondetU8()), 2) == 1
+	if !sameMsg {
+		_, sb = vNewMsg()
+	}
 	holder, err := NewRootStruct(sb, ObjectSize{PointerCount: 1})
 	vAssume(err == nil)
 	err = holder.SetPtr(0, elem.ToPtr())
@@ -184,6 +188,12 @@ func VH_C16_copy_list_member() {
 			mask = 1<<(8*uint(w)) - 1
 		}
 		vAssert(s.Uint64(0)&mask == v&mask, "C16.member.value-preserved")
+		// the field holds a COPY (a list member cannot be pointed at): writing the list element
+		// afterwards does not show through, in the same message either
+		for j := 0; j < w; j++ {
+			sa.data[int(l.off)+w+j] ^= 0xff
+		}
+		vAssert(s.Uint64(0)&mask == v&mask, "C16.member.copy-is-independent-of-the-list")
 	}
 }
 
